@@ -13,6 +13,8 @@ Over `Hello.marshalNoECH` (transcription of `MarshalClientHelloNoECH`, which cal
 * `padding_wire`, `boring_wire` — what the strict parser finds on the wire: exactly one type-21
   extension with the all-zero body of the decided length, or none;
 * `padding_zero`, `padding_not_duplicated`, `two_paddings_err`;
+* `padding_stateless`, `marshal_padding_state_irrelevant`, `marshalSeq_stateless` — `Update` is a
+  function of the current unpadded length only: stored state from earlier marshals never leaks;
 * `padTo_len`, `padTo_reproduces` — `AlwaysPadToLen(T)` (installed by `FromRaw` with `T` = captured
   handshake length): a capture with a non-empty padding body and equal unpadded length is reproduced
   at exactly `T` bytes.
@@ -187,6 +189,41 @@ theorem padTo_reproduces (f : HelloFields) (capturedLen capturedPad : Nat) (xs :
   congr 1
   omega
 
+/-! ## `Update` is a function of the current unpadded length only -/
+
+/-- **padding_stateless**: under a policy (`BoringPaddingStyle`, `AlwaysPadToLen n`) the padding
+decision after *any* sequence of earlier `Update` calls on the same extension object equals the
+decision for the last unpadded length — whatever `(PaddingLen, WillPad)` the object held before. -/
+theorem padding_stateless (pol : PadPolicy) (hp : pol ≠ .none) (earlier : List Nat) (l : Nat) (cur cur' : Nat × Bool) :
+    (earlier ++ [l]).foldl (fun c u => pol.apply u c) cur = pol.apply l cur' := by
+  rw [List.foldl_append]
+  simp only [List.foldl_cons, List.foldl_nil]
+  exact apply_stateless pol hp l _ _
+
+/-- the bytes (or error) of a marshal do not depend on what is stored in the padding extension. -/
+theorem marshal_padding_state_irrelevant (f : HelloFields) (pol : PadPolicy) (hp : pol ≠ .none) (xs : List Ext)
+    (c1 c2 : Nat × Bool) :
+    marshalNoECH f pol (xs.map (setPad c1)) = marshalNoECH f pol (xs.map (setPad c2)) :=
+  marshal_setPad f pol hp xs c1 c2
+
+/-- **sequences**: marshalling hello after hello over one extension-list object — re-marshal after
+`SetSNI`, the second ClientHello after a HelloRetryRequest, one spec object shared by several
+connections — gives at every step exactly what a fresh padding extension would give, however the stored
+state evolved (`next` arbitrary). In particular an out-of-range hello after an in-range one carries no
+padding (`boring_len` applies to every step). -/
+theorem marshalSeq_stateless (pol : PadPolicy) (hp : pol ≠ .none)
+    (next : Nat × Bool → HelloFields → List Ext → Nat × Bool) (c0 : Nat × Bool) :
+    ∀ (steps : List (HelloFields × List Ext)) (c : Nat × Bool),
+      marshalSeq pol next c steps = steps.map fun s => marshalNoECH s.1 pol (s.2.map (setPad c0)) := by
+  intro steps
+  induction steps with
+  | nil => intro c; rfl
+  | cons s r ih =>
+    intro c
+    obtain ⟨f, xs⟩ := s
+    simp only [marshalSeq, List.map_cons]
+    rw [ih, marshal_setPad f pol hp xs c c0]
+
 /-! ## Non-vacuity: concrete hellos on each side of every boundary -/
 
 def exFields : HelloFields :=
@@ -221,6 +258,12 @@ example : unpaddedLen exFields (exExts 304) = 408 ∧
     marshalNoECH exFields (.padTo 512) (exExts 304) = .ok (rawOf (.padTo 512) 304) ∧
     (rawOf (.padTo 512) 304).length = 512 ∧
     (parseCH (rawOf (.padTo 512) 304)).map (·.paddings) = some [List.replicate 100 0] := by decide +kernel
+/-- an in-range hello (512 bytes, padded) followed by an out-of-range one over the same object whose
+padding extension still holds `(204, true)`: the second hello is sent unpadded; and back. -/
+example : marshalSeq .boring (fun c _ _ => (c.1 + 7, true)) (204, true)
+      [(exFields, exExts 152), (exFields, exExts 408), (exFields, exExts 152)]
+    = [.ok (rawOf .boring 152), .ok (rawOf .boring 408), .ok (rawOf .boring 152)] ∧
+    (rawOf .boring 408).length = 512 ∧ (parseCH (rawOf .boring 408)).map (·.paddings) = some [] := by decide +kernel
 /-- a second padding extension is refused. -/
 example : marshalNoECH exFields .boring (padding 5 true :: exExts 10) = .err .multiplePadding := by decide +kernel
 
